@@ -90,6 +90,8 @@ def freeze(value):
         return {str(k): freeze(v) for k, v in value.items()}
     if isinstance(value, (str, int, float, bool)) or value is None:
         return value
+    if asyncio.isfuture(value):
+        return '<future>'  # identity, not state: the repr of a future changes when it completes
     return repr(value)
 
 
